@@ -115,8 +115,8 @@ class C10(BaseCheck):
                  'point are exempt from the ordering clause only')
   QUICK_CASES = 2400
   THOROUGH_CASES = 200000
-  QUICK_WALL = 30
-  THOROUGH_WALL = 400
+  QUICK_WALL = 180
+  THOROUGH_WALL = 1800
   MIN_DISTINCT = 10
 
   def canaries(self, env):
